@@ -92,11 +92,11 @@ FLAGLISTS = ["",
              "-MINIMALDATA",
              "-DISCOURAGE_UPGRADABLE_NOPS,-CHECKLOCKTIMEVERIFY,-CHECKSEQUENCEVERIFY",
              "-STRICTENC,-DERSIG,-LOW_S,-NULLFAIL,-NULLDUMMY,-CONST_SCRIPTCODE"]
-STACKS_FLAGS_QUICK = [(), ("0100",)]
-STACKS_FLAGS_THOROUGH = [(), ("01",), ("0100",), ("01", "01")]
+STACKS_FLAGS_QUICK = {"-MINIMALDATA": [(), ("0100",)], None: [()]}
+STACKS_FLAGS_THOROUGH = {None: [(), ("01",), ("0100",), ("01", "01")]}
 
 DEBUG_AREAS = ["sighash", "signing", "segwit", "taproot"]
-DELIVERIES = ["stdin-line:stdout-pipe", "stdin-line:stdout-pty", "argv:stdin-pty:stdout-pipe"]
+DELIVERIES = ["stdin-line/stdout-pipe", "stdin-line/stdout-pty", "argv/stdin-pty/stdout-pipe"]
 
 
 def option_variants():
@@ -313,23 +313,31 @@ def check_variants(a):
     pre, script, stack, base, label = rep["pre"], rep["script"], rep["stack"], rep["base"], rep["label"]
     rows = []
     n = 0
+    diffs = {}
+    names = {"out": "stdout", "rc": "exit-status", "sig": "signal", "errtext": "error-line", "cc": "crash-class"}
     for d in DELIVERIES:
         for oname, xargs, xenv in option_variants():
             b = run_batch(bdir, cwd, d, xargs, xenv, pre, script, stack)
             n += 1
-            oclass = oname.split("=")[0] if oname.startswith("--debug") else oname
-            rp = {"kind": "variant", "rep": rep, "delivery": d, "option": oname}
             if b["hang"]:
-                rows.append(("hang:batch:%s" % d, "%s under %s %s: no exit" % (label, d, oname), rp, label))
+                rows.append(("hang:batch:%s" % d, "%s under %s %s: no exit" % (label, d, oname),
+                             {"kind": "variant", "rep": rep, "delivery": d, "option": oname}, label))
                 continue
             got = {"rc": b["rc"], "sig": b["sig"], "out": b["out"], "errtext": first_error_line(b["err"]), "cc": pu.crash_class(b)}
             for f in ("sig", "rc", "out", "errtext", "cc"):
                 if got[f] != base[f]:
-                    rows.append(("option-variance:%s:%s:%s" % (d, oclass, {"out": "stdout", "rc": "exit-status", "sig": "signal",
-                                                                         "errtext": "error-line", "cc": "crash-class"}[f]),
-                                 "%s: %s differs under delivery=%s option=%s: baseline %r, got %r" % (label, f, d, oname, base[f], got[f]),
-                                 rp, label))
+                    diffs[(d, oname)] = (names[f], "%s: %s differs under delivery=%s option=%s: baseline %r, got %r" % (
+                        label, names[f], d, oname, base[f], got[f]))
                     break
+    for (d, oname), (field, what) in sorted(diffs.items()):
+        oclass = oname
+        if oname.startswith("--debug=") and "," in oname:
+            # a multi-area list is attributed to the single areas that show the same difference on their own
+            culprits = [x for x in oname[8:].split(",") if diffs.get((d, "--debug=" + x), (None,))[0] == field]
+            if culprits:
+                oclass = "--debug=" + "+".join(culprits)
+        rows.append(("option-variance:%s:%s:%s" % (d, oclass, field), what,
+                     {"kind": "variant", "rep": rep, "delivery": d, "option": oname}, label + oname))
     return rows, n
 
 
@@ -443,10 +451,10 @@ def enumerate_cases(tier):
         for st in std_stacks:
             add(sc, st, "")
         for fl in FLAGLISTS[1:]:
-            for st in fl_stacks:
+            for st in fl_stacks.get(fl, fl_stacks[None]):
                 add(sc, st, fl)
     bounds = {"alphabet_symbols": len(A), "max_script_symbols": 2, "scripts": len(scripts),
-              "stacks_standard_flags": len(std_stacks), "flag_lists": FLAGLISTS, "stacks_per_modified_flag_list": len(fl_stacks)}
+              "stacks_standard_flags": len(std_stacks), "flag_lists": FLAGLISTS, "stacks_per_modified_flag_list": {(k or "other"): [list(x) for x in v] for k, v in fl_stacks.items()}}
     if tier != "quick":
         A3 = sub_alphabet(DEPTH3_NAMES)
         n3 = 0
